@@ -234,10 +234,14 @@ STALE_DOCS = {
     'broken_short': 'package d\n\nx := := 1\n',
     'one_line': 'package d',
     'empty': '',
+    # unbalanced brackets of every kind (token-level helpers such as the folding ranges keep a stack per bracket kind): seed C17-5
+    'broken_closers': 'package d\n\nx := count([1]))\n\ny := [1]]\n\nz := {1}}\n',
+    'broken_openers': 'package d\n\nx := count(([[{{1\n\ny := 2\n',
 }
 STALE_TRANSITIONS = [('broken_low', 'valid_short'), ('broken_low', 'empty'), ('broken_low', 'broken_short'),
                      ('broken_mid', 'one_line'), ('valid_long', 'broken_low'), ('valid_long', 'empty'),
-                     ('valid_long', 'valid_short'), ('valid_long', 'broken_mid'), ('valid_short', 'broken_short')]
+                     ('valid_long', 'valid_short'), ('valid_long', 'broken_mid'), ('valid_short', 'broken_short'),
+                     ('valid_short', 'broken_closers'), ('valid_long', 'broken_openers')]
 STALE_FEATURES = ['textDocument/inlayHint', 'textDocument/hover', 'textDocument/foldingRange', 'textDocument/documentSymbol',
                   'textDocument/codeLens', 'textDocument/completion', 'textDocument/codeAction', 'textDocument/formatting',
                   'textDocument/definition']
